@@ -652,6 +652,75 @@ pub fn c02_c14(tier: Tier, which: &'static str) -> i32 {
         });
     }
     if which == "C14" {
+        // file names that are not valid UTF-8 (the candidate path is a lossy rendition; the
+        // entry's path segments must still be slices of the real path)
+        {
+            use std::ffi::OsStr;
+            use std::os::unix::ffi::OsStrExt;
+            use wax::walk::PathExt;
+            let dir = scratch.root.join("bytes");
+            let _ = std::fs::remove_dir_all(&dir);
+            let n1 = OsStr::from_bytes(b"caf\xE9");
+            let n2 = OsStr::from_bytes(b"\xFF");
+            let n3 = OsStr::from_bytes(b"a\xC0b.txt");
+            let _ = std::fs::create_dir_all(dir.join("t").join(n1).join("a"));
+            let _ = std::fs::write(dir.join("t").join(n1).join(n2), b"");
+            let _ = std::fs::write(dir.join("t").join(n1).join("a").join(n3), b"");
+            let _ = std::fs::write(dir.join("t").join(n3), b"");
+            let base = dir.join("t");
+            let mut checked = 0u64;
+            let mut judge = |e: &fswalk::GotEntry, what: &str, glob: Option<&Glob<'_>>| {
+                checked += 1;
+                let mut bad = vec![];
+                if e.root.join(&e.rel) != e.path {
+                    bad.push(format!("root {:?} joined with relative {:?} is not the path {:?}", e.root, e.rel, e.path));
+                }
+                if e.path.strip_prefix(&e.root).map_or(true, |r| r != e.rel) {
+                    bad.push(format!("relative {:?} is not the path {:?} without the root {:?}", e.rel, e.path, e.root));
+                }
+                if e.depth != e.rel.components().count() {
+                    bad.push(format!("depth {} but relative {:?}", e.depth, e.rel));
+                }
+                if e.root != base {
+                    bad.push(format!("root {:?} is not the given directory", e.root));
+                }
+                if let (Some(g), Some(m)) = (glob, &e.matched) {
+                    if !g.is_match(m.as_str()) {
+                        bad.push(format!("matched text {:?} is not matched by the glob", m));
+                    }
+                    if *m != e.rel.to_string_lossy() {
+                        bad.push(format!("matched text {:?} is not the (lossy) relative segment {:?}", m, e.rel));
+                    }
+                }
+                if !bad.is_empty() {
+                    rep.alarm(Alarm {
+                        class: None,
+                        key: format!("bytes {} {:?}", what, e.rel),
+                        msg: format!("non-UTF-8 names, {}: entry {:?}: {}", what, e.path, bad.join("; ")),
+                        case: json!({"kind": "bytes", "what": what}),
+                    });
+                }
+            };
+            for g in ["**", "*", "*/*", "**/a/*", "caf*/**", "**/*.txt"] {
+                let glob = Glob::new(g).unwrap();
+                if let Some(got) = fswalk::collect_glob(glob.walk(base.clone()), 200) {
+                    for it in &got {
+                        if let Got::Ok(e) = it {
+                            judge(e, &format!("Glob({:?}).walk", g), Some(&glob));
+                        }
+                    }
+                }
+            }
+            if let Some(got) = fswalk::collect(base.as_path().walk(), 200) {
+                for it in &got {
+                    if let Got::Ok(e) = it {
+                        judge(e, "Path::walk", None);
+                    }
+                }
+            }
+            rep.add("non_utf8_entries_checked", checked);
+            let _ = std::fs::remove_dir_all(&dir);
+        }
         // entries of walks with depth and link behaviours over link worlds
         use crate::props_links::{link_worlds, DepthSpec, C15_GLOBS};
         use wax::walk::WalkBehavior;
@@ -879,7 +948,7 @@ pub fn c02_prune_safety(rep: &Report, tier: Tier, scratch: &Scratch) {
             Err(_) => return,
         };
         let Ok(complete) = model::dfa_of_glob(&g) else { return };
-        let comps: Vec<Dfa> = texts.iter().filter_map(|t| Dfa::new(t).ok()).collect();
+        let comps: Vec<Dfa> = texts.iter().filter_map(|t| Dfa::new_search(t).ok()).collect();
         if comps.len() != texts.len() {
             return;
         }
